@@ -511,7 +511,9 @@ func TestVerif_C07_h1hostile(t *testing.T) {
 			ptxt string
 		}
 		ch := make(chan result, 1)
+		start := make(chan struct{})
 		go func() {
+			<-start
 			var res result
 			ptxt, panicked := verifh.Safely(func() {
 				r := clients[oi].R()
@@ -547,6 +549,8 @@ func TestVerif_C07_h1hostile(t *testing.T) {
 		if (opts[oi].name == "autodecompress" || opts[oi].name == "everything") && c07HasUnsupportedCE(resp) {
 			class = "c14-unsupported-encoding-autodecompress"
 		}
+		s.Begin(id, human)
+		close(start)
 		select {
 		case res := <-ch:
 			s.Count(res.kind)
